@@ -3,17 +3,51 @@ open GV GV.C02 GV.C01
 
 /-
 Line protocol for C01 (see harness/c01.py):
-  ds <varspec> <varspec> ...        design space (resets everything)
-  cfg <normalized> <useDb> <storeJac> <roundInts>   (bits; resets the database and the call log)
-  fn <name> <c:a:q>|<c:a:q>...      polynomial function rows c + a.x + q.x^2 (a, q comma lists)
+  ds <varspec> <varspec> ...        design space (resets everything; no varspec: the empty space)
+  dsop <edit>                       one public edit of the design space (C02 protocol: add, remove,
+                                    filter, filterdim, rename, extend, setlb, setub, setarr, setdict,
+                                    setvar, initmissing, intnorm), `DS.apply`; answers ok / E
+  cfg <normalized> <useDb> <storeJac> <roundInts> [<supportSparse>]   (bits; resets the database and the call log)
+  fn <name> <c:a:q>|<c:a:q>... [dense|csr|csc|coo]   polynomial function rows c + a.x + q.x^2 and the
+                                    container of its Jacobian
   val <name> <x>   /  jac <name> <x>     a request; answer: out=<..> db=<..> calls=<..>
 -/
+
+def tol : Rat := 25 / 1125899906842624   -- 100 * 2^-52 (bound tolerance of add_variable / set_current_value)
 
 structure D where
   ds : DS := DS.empty
   cfg : Cfg := ⟨false, true, true, true⟩
+  ssj : Bool := false
   fns : List Fn := []
+  fmts : List (String × Option SpFmt) := []
   st : St := St.init
+
+def parseDict? (toks : List String) : Option (List (String × List Rat)) :=
+  toks.mapM (fun t => match t.splitOn "=" with
+    | [k, v] => (parseRatList? v).map (fun l => (k, l))
+    | _ => none)
+
+/-- One edit line of the C02 protocol as an `Op`. -/
+def parseOp? (toks : List String) : Option Op :=
+  match toks with
+  | ["add", vs] => (parseVar? vs).map Op.add
+  | ["remove", n] => some (.remove n)
+  | ["filter", ns] => some (.filter (parseStrList ns))
+  | ["filterdim", n, dims] => (parseNatList? dims).map (Op.filterDim n)
+  | ["rename", o, n] => some (.rename o n)
+  | "extend" :: vss => (vss.mapM parseVar?).map Op.extend
+  | ["setlb", n, b] => (parseOList? b).map (Op.setLb n)
+  | ["setub", n, b] => (parseOList? b).map (Op.setUb n)
+  | ["setarr", x] => (parseRatList? x).map Op.setArr
+  | "setdict" :: kvs => (parseDict? kvs).map Op.setDict
+  | ["setvar", n, x] => (parseRatList? x).map (Op.setVar n)
+  | ["initmissing"] => some .initMissing
+  | ["intnorm", b] => some (.intNorm (b == "1"))
+  | _ => none
+
+def parseFmt (s : String) : Option SpFmt :=
+  if s == "csr" then some .csr else if s == "csc" then some .csc else if s == "coo" then some .coo else none
 
 def parseRow? (s : String) : Option Row :=
   match s.splitOn ":" with
@@ -40,13 +74,27 @@ def step (d : D) (line : String) : D × String :=
   match tokens line with
   | "ds" :: vss =>
     match vss.mapM parseVar? with
-    | some vs => ({ ds := { vars := vs }, cfg := d.cfg }, "ok")
+    | some vs => ({ ds := { vars := vs }, cfg := d.cfg, ssj := d.ssj }, "ok")
+    | none => (d, "bad-op")
+  | "dsop" :: toks =>
+    match parseOp? toks with
+    | some op =>
+      let ds' := d.ds.apply tol op
+      ({ d with ds := ds', st := St.init }, if ds' == d.ds then "E" else "ok")
     | none => (d, "bad-op")
   | ["cfg", a, b, c, e] =>
-    ({ d with cfg := ⟨a == "1", b == "1", c == "1", e == "1"⟩, st := St.init }, "ok")
+    ({ d with cfg := ⟨a == "1", b == "1", c == "1", e == "1"⟩, ssj := false, st := St.init }, "ok")
+  | ["cfg", a, b, c, e, s] =>
+    ({ d with cfg := ⟨a == "1", b == "1", c == "1", e == "1"⟩, ssj := s == "1", st := St.init }, "ok")
   | ["fn", n, rows] =>
     match (rows.splitOn "|").mapM parseRow? with
-    | some rs => ({ d with fns := d.fns.filter (fun f => !(f.name == n)) ++ [⟨n, rs⟩] }, "ok")
+    | some rs => ({ d with fns := d.fns.filter (fun f => !(f.name == n)) ++ [⟨n, rs⟩],
+                           fmts := d.fmts.filter (fun f => !(f.1 == n)) ++ [(n, none)] }, "ok")
+    | none => (d, "bad-op")
+  | ["fn", n, rows, fmt] =>
+    match (rows.splitOn "|").mapM parseRow? with
+    | some rs => ({ d with fns := d.fns.filter (fun f => !(f.name == n)) ++ [⟨n, rs⟩],
+                           fmts := d.fmts.filter (fun f => !(f.1 == n)) ++ [(n, parseFmt fmt)] }, "ok")
     | none => (d, "bad-op")
   | ["val", n, x] =>
     match parseRatList? x with
@@ -57,7 +105,7 @@ def step (d : D) (line : String) : D × String :=
   | ["jac", n, x] =>
     match parseRatList? x with
     | some x =>
-      let (st', j) := evalJac d.ds d.cfg (fnJac d.fns) d.st n x
+      let (st', j) := evalJacC d.ds d.cfg d.ssj (fnJacC d.fns d.fmts d.ds.dimension) d.st n x
       ({ d with st := st' }, s!"out={showMat j} db={showDb st'.db} calls={showCalls st'.calls}")
     | none => (d, "bad-op")
   | ["linnorm", n] =>
